@@ -7,6 +7,7 @@ import (
 	"os"
 	"path/filepath"
 	"reflect"
+	"sort"
 	"strings"
 	"testing"
 	"time"
@@ -116,7 +117,7 @@ func TestLifecyclersRapid(t *testing.T) {
 		var steps []step
 		nSteps := rapid.IntRange(3, vx.Pick(30, 45)).Draw(rt, "steps")
 		durs := []time.Duration{time.Millisecond, 300 * time.Millisecond, time.Second, 2 * time.Second, 5 * time.Second, 7 * time.Second, 12 * time.Second, 25 * time.Second, 70 * time.Second, 3 * time.Minute}
-		kinds := []string{"start", "start", "start", "stop", "restart", "advance", "advance", "advance", "advance", "changeState", "changeState", "readonly", "ready", "ready", "claim"}
+		kinds := []string{"start", "start", "start", "stop", "restart", "advance", "advance", "advance", "advance", "changeState", "changeState", "readonly", "ready", "ready", "claim", "conflict", "conflict"}
 		for i := 0; i < nSteps; i++ {
 			steps = append(steps, step{
 				Kind:  kinds[vx.Mix(rapid.Uint64().Draw(rt, "kind"), len(kinds))],
@@ -335,6 +336,37 @@ func TestLifecyclersRapid(t *testing.T) {
 					err := in.lc.Full.ClaimTokensFor(context.Background(), cfgs[s.From].ID)
 					in.rec.SetExplicit(false)
 					logf("%s claims the tokens of %s: %v", in.id, cfgs[s.From].ID, err)
+				case "conflict":
+					// constructed: what a gossip store's conflict resolution does to a joining instance — one of
+					// its tokens disappears from its entry (the winner held it already) while it observes
+					d := getRing()
+					var joining []string
+					for _, x := range cur {
+						if x != nil && x.running {
+							if e, ok := d.Ingesters[x.id]; ok && e.State == ring.JOINING && len(e.Tokens) > 0 {
+								joining = append(joining, x.id)
+							}
+						}
+					}
+					if len(joining) == 0 {
+						continue
+					}
+					sort.Strings(joining)
+					loser := joining[s.From%len(joining)]
+					resolver := &fakekv.Recorder{Client: store, Writer: "conflict-resolution", Log: lg, Clone: lcx.CloneDesc}
+					err := resolver.CAS(context.Background(), lcx.RingKey, func(v interface{}) (interface{}, bool, error) {
+						rd := ring.GetOrCreateRingDesc(v)
+						le, ok := rd.Ingesters[loser]
+						if !ok || len(le.Tokens) == 0 {
+							return nil, false, nil
+						}
+						le.Tokens = append([]uint32{}, le.Tokens[:len(le.Tokens)-1]...)
+						rd.Ingesters[loser] = le
+						return rd, true, nil
+					})
+					vx.Class("token_conflicts_resolved_against_a_joining_instance", 1)
+					nontrivial = true
+					logf("conflict resolution takes a token away from joining %s: %v", loser, err)
 				case "ready":
 					if in == nil || !in.running || in.lc.Full == nil {
 						continue
